@@ -8,6 +8,9 @@ by its UTF-8 bytes percent-encoded, an absent attribute as `-`):
 
   reset (v1|v2) <own>                                           → ok     (new client + manager)
   config <own>                                                  → ok     (the SAME client is reconfigured: account switch)
+  jid <full jid>                                                → own=<bare>   (the own full JID becomes this: server-bound at
+                                                                  login, or QXmppConfiguration::setJid; the implementation side
+                                                                  prints configuration().jidBare(), the model `bareOf jid`)
   msg <tag> <id?> <from?> <to?> <type?> <junk 0|1> <n> child{n} → h=<0|1> w=<0|1> <events>
     child := c <tag> <ns> <text> <n> fwd{n}
     fwd   := f <tag> <ns> <n> inner{n}
@@ -134,6 +137,10 @@ def stepLine (s : St) (line : String) : St × String :=
   | ["config", own] =>
     match reqStr own with
     | some own => ((step s (.configure s.gen own)).1, "ok")
+    | none => (s, "bad-op")
+  | ["jid", j] =>
+    match reqStr j with
+    | some j => let r := step s (.bound j); (r.1, s!"own={pctEncode r.1.own}")
     | none => (s, "bad-op")
   | "msg" :: rest =>
     match pOuter rest with
